@@ -1697,6 +1697,7 @@ func genCase(t *rapid.T) (segCase, string) {
 	if lay.TopSidx && rapid.IntRange(0, 3).Draw(t, "topSidxGap") == 0 {
 		// a free box between the index and the indexed material, announced in first_offset
 		lay.TopSidxGap = rapid.SampledFrom([]int{8, 9, 16, 24, 100}).Draw(t, "topSidxGapSize")
+		lay.TopSidxGapLarge = lay.TopSidxGap >= 16 && rapid.IntRange(0, 2).Draw(t, "topSidxGapLarge") == 0
 	}
 	if lay.TopSidx && len(nFrags) >= 2 && rapid.IntRange(0, 4).Draw(t, "topSidxSplit") == 0 {
 		// the index as two chained sidx boxes (the second skips the segments of the first in first_offset)
@@ -1968,6 +1969,7 @@ func classify(c *segCase, mode string) (bool, []string) {
 	add(c.moof(), "flag-DecStartOnMoof", "")
 	add(c.Layout.TopSidx, "sidx-existing", "sidx-absent")
 	add(c.Layout.TopSidxGap > 0, "sidx-existing-with-first-offset", "")
+	add(c.Layout.TopSidxGapLarge, "free-box-with-64-bit-size-behind-the-index", "")
 	add(c.Layout.TopSidxSplit > 0, "top-level-index-split-over-two-sidx", "")
 	add(c.Layout.MfraLenSizes > 0, "tfra-wide-number-fields", "")
 	add(c.AddIfNotExists, "addIfNotExists", "addIfNotExists-false")
